@@ -3,6 +3,8 @@
 package object
 
 import (
+	"sync"
+	"servitor/mime"
 	"encoding/json"
 	"errors"
 	"fmt"
@@ -99,6 +101,10 @@ func verifDrawClass(rng *rand.Rand, class string) verifDraw {
 		return str("")
 	case "str_plain":
 		return str(word())
+	case "str_format":
+		/* invisible, but no control characters: they are part of the value */
+		return str(pick("\U0001F468\u200d\U0001F469\u200d\U0001F467", "\u0645\u06cc\u200c\u062e\u0648\u0627\u0647\u0645", "co\u00adoperate", "\u200d", "\u200eabc\u200f",
+			word()+"\u2028"+word(), word()+"\u2029", "\ue000"+word(), "\u2764\ufe0f", "e\u0301", "\ufeff"+word(), "a\u2060b", "\U000E0041"+word()))
 	case "str_ctl_only":
 		return str(pick("\x01\x02\x7f", "\x1b", "\u0080\u009b", "\r", "\x00\x00\x00"))
 	case "str_ctl_mixed":
@@ -204,6 +210,13 @@ func TestVerifAccessors(t *testing.T) {
 			before := verifCanon(decoded)
 			var got, want string
 			var err error
+			again := ""
+			/* an independent copy of the same document, read after the holder of the first value has scribbled over it */
+			var second map[string]any
+			json.NewDecoder(strings.NewReader(doc)).Decode(&second)
+			if cell.Acc == "GetMarkup" {
+				second["content"] = "<p>some <b>text</b></p>"
+			}
 			panicked, what := verifkit.Try(func() {
 				switch cell.Acc {
 				case "GetAny":
@@ -239,6 +252,12 @@ func TestVerifAccessors(t *testing.T) {
 					err = e
 					if e == nil {
 						got = v.String()
+						v.Host, v.Path, v.Scheme = "scribbled.example", "/scribbled", "gopher"
+						if v2, e2 := Object(second).GetURL(key); e2 == nil {
+							again = v2.String()
+						} else {
+							again = "error: " + e2.Error()
+						}
 					}
 					/* faithful = the URL denoted by the sanitised string */
 					if ref, perr := url.Parse(draw.want); perr == nil {
@@ -255,6 +274,12 @@ func TestVerifAccessors(t *testing.T) {
 					err = e
 					if e == nil {
 						got = v.Essence
+						v.Essence, v.Supertype, v.Subtype = "scribbled/over", "scribbled", "over"
+						if v2, e2 := Object(second).GetMediaType(key); e2 == nil {
+							again = v2.Essence
+						} else {
+							again = "error: " + e2.Error()
+						}
 					}
 					want = draw.aux
 				}
@@ -270,14 +295,81 @@ func TestVerifAccessors(t *testing.T) {
 			if outcome != "value" {
 				got, want = "", ""
 			}
+			if outcome != "value" || (cell.Acc != "GetURL" && cell.Acc != "GetMediaType") {
+				again = want
+			}
 			/* a second reader of the same document (they are shared through the cache) must find it as it was */
 			mutated := verifCanon(decoded) != before
 			ev := verifkit.M{"ev": "accessor", "acc": cell.Acc, "class": cell.Class, "json": verifkit.Clip(draw.text, 80), "outcome": outcome,
-				"got": got, "want": want, "panic": panicked, "mutated": mutated}
+				"got": got, "want": want, "again": again, "panic": panicked, "mutated": mutated}
 			if panicked {
 				ev["what"] = what
 			}
 			out.Emit(ev)
 		}
 	}
+}
+
+/*
+	Objects read side by side, as the constructors of pub do (creators, recipients, attachments and replies of one
+	post are built by goroutines of their own): every goroutine reads objects of its own, each with a media type
+	nobody has seen before.  A fault here ends the process; the check reads that off the exit.
+*/
+func TestVerifAccessorsSideBySide(t *testing.T) {
+	out := verifkit.Out()
+	defer out.Close()
+	rounds := 40
+	if verifkit.Thorough() {
+		rounds = 400
+	}
+	out.Emit(verifkit.M{"ev": "begin", "what": "side by side", "rounds": rounds})
+	out.Flush()
+	var mu sync.Mutex
+	var wg sync.WaitGroup
+	for g := 0; g < 8; g++ {
+		wg.Add(1)
+		g := g
+		go func() {
+			defer wg.Done()
+			for i := 0; i < rounds; i++ {
+				essence := fmt.Sprintf("text/x-g%d-r%d-%d", g, i, verifkit.Seed())
+				decoded := map[string]any{"mediaType": essence + "; charset=utf-8", "content": "plain", "published": "2020-01-02T03:04:05Z",
+					"id": fmt.Sprintf("https://h.example/%d/%d", g, i), "totalItems": float64(i), "name": fmt.Sprintf("n%d", i)}
+				o := Object(decoded)
+				var got string
+				var err error
+				panicked, what := verifkit.Try(func() {
+					o.GetString("name")
+					o.GetNumber("totalItems")
+					o.GetTime("published")
+					o.GetURL("id")
+					o.GetMarkup("content", "mediaType")
+					var v *mime.MediaType
+					v, err = o.GetMediaType("mediaType")
+					if err == nil {
+						got = v.Essence
+					}
+				})
+				outcome := "value"
+				if panicked {
+					outcome = "panic"
+				} else if err != nil {
+					outcome = "error"
+				}
+				ev := verifkit.M{"ev": "accessor", "acc": "GetMediaType", "class": "str_mime", "json": essence, "outcome": outcome, "got": got, "want": essence,
+					"again": essence, "panic": panicked, "mutated": false}
+				if outcome != "value" {
+					ev["got"], ev["want"], ev["again"] = "", "", ""
+				}
+				if panicked {
+					ev["what"] = what
+				}
+				mu.Lock()
+				out.Emit(ev)
+				mu.Unlock()
+			}
+		}()
+	}
+	wg.Wait()
+	out.Emit(verifkit.M{"ev": "end", "what": "side by side"})
 }
